@@ -483,6 +483,9 @@ pub assume_specification<T, F> [<[T]>::sort_by] (s: &mut [T], f: F)
         sorted_by_closure(final(s)@, f);
 
 // [A-from-reflexive] core's blanket `impl<T> From<T> for T` is the identity
+// [A-std-slice-contains] `slice.contains(x)`: some element is `==` to x (for element types whose `==` has a spec)
+pub assume_specification<T: PartialEq> [<[T]>::contains] (s: &[T], x: &T) -> (r: bool)
+    ensures <T as vstd::std_specs::cmp::PartialEqSpec>::obeys_eq_spec() ==> r == (exists|i: int| 0 <= i < s@.len() && #[trigger] vstd::std_specs::cmp::PartialEqSpec::eq_spec(&s@[i], x));
 pub assume_specification<T> [<T as From<T>>::from](t: T) -> (r: T)
     ensures r == t;
 // [A-ordering-eq] derive(PartialEq) on std::cmp::Ordering
@@ -894,6 +897,10 @@ impl Clone for SSKRShare {
     fn clone(&self) -> (r: Self) ensures r == *self { unimplemented!() }
 }
 pub uninterp spec fn sskr_share_cbor(x: SSKRShare) -> CBOR;
+// [A-sskr-share-codec-inj] the CBOR determines the share (decoding is a function)
+pub broadcast axiom fn axiom_sskr_share_cbor_inj(a: SSKRShare, b: SSKRShare)
+    requires #[trigger] sskr_share_cbor(a) == #[trigger] sskr_share_cbor(b)
+    ensures a == b;
 impl vstd::std_specs::convert::FromSpecImpl<SSKRShare> for CBOR {
     open spec fn obeys_from_spec() -> bool { true }
     open spec fn from_spec(x: SSKRShare) -> Self { sskr_share_cbor(x) }
@@ -909,10 +916,10 @@ impl vstd::std_specs::convert::TryFromSpecImpl<CBOR> for SSKRShare {
 }
 impl TryFrom<CBOR> for SSKRShare {
     type Error = Error;
-    // [A-sskr-share-codec]
+    // [A-sskr-share-codec] decoding inverts encoding: Ok(s) exactly for the CBOR of a share s
     #[verifier::external_body]
     fn try_from(c: CBOR) -> (r: Result<SSKRShare, Error>)
-        ensures r matches Ok(s) ==> sskr_share_cbor(s) == c
+        ensures r matches Ok(s) ==> sskr_share_cbor(s) == c, (exists|s: SSKRShare| sskr_share_cbor(s) == c) ==> r is Ok
     { unimplemented!() }
 }
 impl SSKRShare {
@@ -947,18 +954,30 @@ impl SymmetricKey {
     pub fn data(&self) -> (r: &[u8; 32]) ensures r@ == self.key_bytes() { unimplemented!() }
     #[verifier::external_body]
     pub fn from_data_ref(secret: &SSKRSecret) -> (r: Result<SymmetricKey>)
-        ensures r matches Ok(k) ==> k.key_bytes() == secret.bytes()
+        ensures r matches Ok(k) ==> k.key_bytes() == secret.bytes(), secret.bytes().len() == 32 ==> r is Ok
     { unimplemented!() }
 }
+// [A-symkey-bytes-inj] a symmetric key is its 32 bytes
+pub broadcast axiom fn axiom_symkey_bytes_inj(a: SymmetricKey, b: SymmetricKey)
+    requires #[trigger] a.key_bytes() == #[trigger] b.key_bytes()
+    ensures a == b;
 // HashMap<u16, Vec<SSKRShare>> grouping used by sskr_shares_in:
 //   `result.entry(id).and_modify(|shares| shares.push(share.clone())).or_insert(vec![share]);`  (rule R-subst)
-// [A-hashmap-group-push] appends the share to the group with that identifier (creating it if absent)
+// [A-hashmap-group-push] `map.entry(id).and_modify(|v| v.push(share.clone())).or_insert(vec![share])`:
+// appends the share to the group with that identifier (creating it if absent); other groups untouched
 #[verifier::external_body]
 pub fn hashmap_group_push(map: &mut HashMap<u16, Vec<SSKRShare>>, id: u16, share: SSKRShare)
+    ensures
+        final(map)@.dom() == old(map)@.dom().insert(id),
+        final(map)@[id]@ == (if old(map)@.contains_key(id) { old(map)@[id]@ } else { Seq::<SSKRShare>::empty() }).push(share),
+        forall|k: u16| k != id && old(map)@.contains_key(k) ==> #[trigger] final(map)@[k] == old(map)@[k],
 { unimplemented!() }
-// `map.values().cloned().collect()`  (rule R-subst)  [A-hashmap-values]
+// `map.values().cloned().collect()`  (rule R-subst)  [A-hashmap-values]: the groups of the map, in some order
 #[verifier::external_body]
 pub fn hashmap_values_cloned(map: HashMap<u16, Vec<SSKRShare>>) -> (r: Vec<Vec<SSKRShare>>)
+    ensures
+        forall|k: u16| map@.contains_key(k) ==> exists|g: int| 0 <= g < r@.len() && #[trigger] r@[g] == map@[k],
+        forall|g: int| 0 <= g < r@.len() ==> exists|k: u16| map@.contains_key(k) && map@[k] == #[trigger] r@[g],
 { unimplemented!() }
 
 // ============================================================================ text leaves
